@@ -116,3 +116,8 @@ pub fn sym_b() -> String { String::new() }
 #[derive(TS)] pub struct IN2<T> { pub a: Inner<T>, #[ts(inline)] pub b: Inner<T> }
 #[derive(TS)] pub struct IN3<T> { #[ts(flatten)] pub a: Inner<T>, pub b: Inner<T> }
 #[derive(TS)] pub enum IN4<T> { A { #[ts(inline)] a: Inner<T>, b: Inner<T> }, B(Inner<T>, #[ts(inline)] Inner<T>) }
+#[derive(TS)] pub struct IO2<T> { #[ts(inline)] pub m: HashMap<String, Inner<T>>, #[ts(inline)] pub o: Option<Vec<Inner<T>>>, #[ts(inline)] pub a: [Inner<T>; 2] }
+#[derive(TS)] pub struct NO2<T> { pub m: HashMap<String, Inner<T>>, pub o: Option<Vec<Inner<T>>>, pub a: [Inner<T>; 2] }
+#[derive(TS)] #[ts(as = "Option<T>")] pub enum AE1<T> { A(T) }
+#[derive(TS)] #[ts(tag = "t")] pub struct TF1<T> { pub id: bool, #[ts(flatten)] pub s: Inner<T> }
+#[derive(TS)] pub struct GF1<T, U> { #[ts(flatten)] pub a: G2<T, U>, pub z: U }
